@@ -150,6 +150,11 @@ impl Execution {
         CurrentSchedule::init(self.initial_schedule.clone());
         UNGRACEFUL_SHUTDOWN_CONFIG.set(config.ungraceful_shutdown_config);
 
+        // An earlier execution on this thread that ended by panicking (a failing run) never reached `cleanup`:
+        // its labels and tags must not be visible to this one.
+        LABELS.with(|cell| cell.borrow_mut().clear());
+        TASK_ID_TO_TAGS.with(|cell| cell.borrow_mut().clear());
+
         EXECUTION_STATE.set(&state, move || {
             // Spawn `f` as the first task
             ExecutionState::spawn_main_thread(
